@@ -4,9 +4,9 @@ CONSTANTS
   Ids = {1, 2}
   MaxData = 1
   MaxHist = 0
-  RegWhileClaimed = "accept"
-  AltSpelling = "off"
-INVARIANTS C26_NeverHangs
+  RegWhileClaimed = "refuse"
+  AltSpelling = "erase-raw"
+INVARIANTS C25_SingleClaim
 VIEW View
 CONSTRAINT Bound
 CHECK_DEADLOCK FALSE
